@@ -259,6 +259,17 @@ def check_attr_table(ck, fi):
     aliases = _jar_aliases(fi)
     params = set(names)
 
+    def origins(e, env):
+        """Parameters an unfoldable expression draws on: named directly, or through locals that carry an origin marker."""
+        out = set()
+        for nm in q.names_in(e):
+            v = env.get(nm)
+            if isinstance(v, str) and v.startswith("<derived from ") and v.endswith(">"):
+                out |= {x for x in v[len("<derived from "):-1].split(",") if x}
+            elif nm in params:
+                out.add(nm)
+        return out
+
     def hook(n, env):
         if n.kind != "stmt" or not isinstance(n.ast, (ast.Assign, ast.AnnAssign)) or n.ast.value is None:
             return None
@@ -274,7 +285,7 @@ def check_attr_table(ck, fi):
                 def sym(e):
                     r = try_fold(e, env)
                     if r is UNK:
-                        src = sorted(x for x in q.names_in(e) if x in params)
+                        src = sorted(origins(e, env))
                         r = ("<derived from %s>" % ",".join(src)) if src else UNK
                     return r
 
@@ -285,11 +296,13 @@ def check_attr_table(ck, fi):
                 env["@attr:" + key.lower()] = "?" if val is UNK or (isinstance(val, tuple) and val[1] is UNK) else val
             elif isinstance(t, ast.Subscript) and q.dotted(t.value) == JAR:
                 env["@cookie"] = (try_fold(t.slice, env, "?"), try_fold(st.value, env, "?"))
-            elif isinstance(t, ast.Name) and t.id in params and try_fold(st.value, env) is UNK:
-                # a parameter recomputed from other parameters: keep a truthy symbolic value that names its origin
-                src = sorted(x for x in q.names_in(st.value) if x in params and x != t.id)
-                env[t.id] = "<derived from %s>" % ",".join(src)
-                return True
+            elif isinstance(t, ast.Name) and try_fold(st.value, env) is UNK:
+                # a value computed from parameters (directly or through explaining locals) that cannot be folded:
+                # keep a truthy symbolic value that names the parameters it originates from
+                src = origins(st.value, env) - {t.id}
+                if src or t.id in params:
+                    env[t.id] = "<derived from %s>" % ",".join(sorted(src))
+                    return True
         return None
 
     known = {m: None for m in pure_self_methods(ck.repo, WEB, RH)}
